@@ -61,7 +61,7 @@ def check_extract(spec, ctx):
     ctx.eq("extract_repeat", str(loc.extract_sequence()), exp)
     # reversing the strand reverse-complements
     rc = loc.reverse_strand().extract_sequence()
-    ctx.eq("reverse_strand_image", str(rc), rm.seq_image(g, list(reversed(pos)), rm.flip(L["strand"])))
+    ctx.eq("reverse_strand_image", str(rc), rm.seq_image(g, rm.positions(L["blocks"], rm.flip(L["strand"])), rm.flip(L["strand"])))
     # ... which is the reverse complement of the extracted sequence (U and T denote the same base: complement(A) is T)
     ctx.eq("reverse_strand_revcomp", _u2t(str(rc)), _u2t(rm.revcomp(exp)))
     ctx.eq("sequence_reverse_complement", str(seq.reverse_complement()), rm.revcomp(exp))
@@ -219,7 +219,7 @@ def check_derived(spec, ctx):
 def base_spec(draw, tier, strands):
     big = tier == "thorough"
     alpha = draw(st.sampled_from(NT_ALPHABETS))
-    L = draw(S.location_spec(max_k=5 if big else 4, allow_overlap=draw(st.integers(0, 6)) == 0, max_len=8, shift_prob=0, strands=strands))
+    L = draw(S.location_spec(max_k=5 if big else 4, allow_overlap=draw(st.integers(0, 6)) == 0, allow_nested=True, max_len=8, shift_prob=0, strands=strands))
     hi = max(b[1] for b in L["blocks"])
     n = hi + draw(st.integers(0, 4))
     g = draw(S.genome(n, alpha, mixed_case=draw(st.booleans())))
@@ -269,6 +269,13 @@ def strat_derived(draw, tier="quick"):
     return sp
 
 
+def pred_tie_on_start(spec, clause, detail):
+    """two non-empty blocks share their start but not their end (the canonical block order breaks that tie by end
+    ascending on plus and descending on minus, so the minus scan is not the mirror image of the plus scan)"""
+    ne = rm.sorted_blocks(spec["loc"]["blocks"])
+    return any(a[0] == b[0] and a[1] != b[1] for a in ne for b in ne)
+
+
 def pred_step(spec, clause, detail):
     return any(op[0] == "step" for op in spec.get("ops", []))
 
@@ -304,5 +311,5 @@ PROP = Prop(
         "zero-length pieces may be refused or lose their location (a zero-length Location is falsy)",
         "recorded locations with self-overlapping blocks are not generated for the derived leg (C01 finding F1)",
     ],
-    predicates={"stepped_slice": pred_step},
+    predicates={"stepped_slice": pred_step, "tie_on_start": pred_tie_on_start},
 )
